@@ -441,6 +441,12 @@ def run(ctx):
     if nsite < 3:
         raise AnalysisError(f"only {nsite} call sites of retried methods with Iterable parameters found", "db_retry")
 
+    # ---- C22.9 (the obligations of C03.1: a call node left without subtree rows by an interrupted recording is refused by the reader) ----
+    from ..report import BorrowCtx as _BorrowCtx9
+    from . import C03 as _borrowed_C03
+
+    _borrowed_C03.run(_BorrowCtx9(ctx, {"C03.1": "C22.9"}))
+
 
 def _walk_own(n):
     a = n.ast
